@@ -2635,3 +2635,211 @@ Proof.
   - congruence.
   - destruct (inv_mem _ _ I' d D' L' P) as (m & M & _). rewrite E in M. discriminate.
 Qed.
+
+(** * Footprint on the object pool: a call writes only its argument slots
+    and never changes the kind (C type) of a slot *)
+Definition ofr (js : list nat) (s s' : st) : Prop :=
+  (forall j, ~ In j js -> nth_error (objs s') j = nth_error (objs s) j) /\
+  (forall j, option_map okind (nth_error (objs s') j) = option_map okind (nth_error (objs s) j)).
+
+Lemma ofr_refl js s : ofr js s s.
+Proof. split; intros; reflexivity. Qed.
+Lemma ofr_trans js s1 s2 s3 : ofr js s1 s2 -> ofr js s2 s3 -> ofr js s1 s3.
+Proof. intros (A & A') (B & B'). split; [intros j N; rewrite (B j N); apply A; auto|intros j; rewrite B'; apply A']. Qed.
+Lemma ofr_mono js js' s s' : (forall j, In j js -> In j js') -> ofr js s s' -> ofr js' s s'.
+Proof. intros M (A & A'). split; [intros j N; apply A; auto|auto]. Qed.
+Lemma ofr_same js s s' : objs s' = objs s -> ofr js s s'.
+Proof. intros E. split; intros; rewrite E; reflexivity. Qed.
+Lemma ofr_upd js s i x :
+  In i js -> (forall o, nth_error (objs s) i = Some o -> okind x = okind o) -> ofr js s (set_objs s (upd (objs s) i x)).
+Proof.
+  intros I K. split; intros j; cbn.
+  - intros N. apply nth_error_upd_other. intros ->. auto.
+  - rewrite nth_error_upd. destruct (Nat.eqb_spec i j) as [->|]; auto.
+    destruct (nth_error (objs s) j) as [o|] eqn:E.
+    + assert (j < length (objs s))%nat by (apply nth_error_Some; congruence).
+      destruct (Nat.ltb_spec j (length (objs s))); [|lia]. cbn. f_equal. auto.
+    + apply nth_error_None in E. destruct (Nat.ltb_spec j (length (objs s))); [lia|]. reflexivity.
+Qed.
+Lemma ofr_wr_gp js s i g : In i js -> ofr js s (wr_gp s i g).
+Proof.
+  intros I. unfold wr_gp. destruct (nth_error (objs s) i) eqn:E; [|apply ofr_refl].
+  apply ofr_upd; auto. intros o' E'. assert (o' = o) by congruence. subst. reflexivity.
+Qed.
+Lemma ofr_wr_up js s a u : (forall i, a = ASlot i -> In i js) -> ofr js s (wr_up s a u).
+Proof.
+  intros I. destruct a as [i|d]; unfold wr_up.
+  - destruct (nth_error (objs s) i) eqn:E; [|apply ofr_refl].
+    apply ofr_upd; auto. intros o' E'. assert (o' = o) by congruence. subst. reflexivity.
+  - destruct (lookup d (datas s)); [apply ofr_same; reflexivity|apply ofr_refl].
+Qed.
+Lemma ofr_wr_up_slot js s i u : In i js -> ofr js s (wr_up s (ASlot i) u).
+Proof. intros I. apply ofr_wr_up. intros ? [= <-]. auto. Qed.
+Lemma ofr_wr_up_data js s d u : ofr js s (wr_up s (AData d) u).
+Proof. apply ofr_wr_up. intros ? ?. discriminate. Qed.
+Lemma ofr_do_free js s p : ofr js s (do_free s p).
+Proof. destruct p; [apply ofr_same; reflexivity|apply ofr_refl]. Qed.
+
+Lemma ofr_wr_data js s d D : ofr js s (wr_data s d D).
+Proof. apply ofr_same. reflexivity. Qed.
+Lemma ofr_add_log js s e : ofr js s (add_log s e).
+Proof. apply ofr_same. reflexivity. Qed.
+Lemma ofr_set_datas js s d : ofr js s (set_datas s d).
+Proof. apply ofr_same. reflexivity. Qed.
+Lemma ofr_do_malloc ok js s sz s2 r : do_malloc ok s sz = (s2, r) -> ofr js s s2.
+Proof. unfold do_malloc. destruct (malloc ok (al s) sz). intros [= <- _]. apply ofr_same. reflexivity. Qed.
+
+Ltac of_prim :=
+  match goal with
+  | |- ofr _ ?s ?s => apply ofr_refl
+  | |- ofr _ _ (do_free _ _) => eapply ofr_trans; [|apply ofr_do_free]
+  | |- ofr _ _ (wr_data _ _ _) => eapply ofr_trans; [|apply ofr_wr_data]
+  | |- ofr _ _ (add_log _ _) => eapply ofr_trans; [|apply ofr_add_log]
+  | |- ofr _ _ (set_datas _ _) => eapply ofr_trans; [|apply ofr_set_datas]
+  | |- ofr _ _ (wr_gp _ _ _) => eapply ofr_trans; [|apply ofr_wr_gp; first [assumption|cbn; tauto]]
+  | |- ofr _ _ (wr_up _ (ASlot _) _) => eapply ofr_trans; [|apply ofr_wr_up_slot; first [assumption|cbn; tauto]]
+  | |- ofr _ _ (wr_up _ (AData _) _) => eapply ofr_trans; [|apply ofr_wr_up_data]
+  | |- ofr _ _ (unique_init _ _) => unfold unique_init
+  | |- ofr _ _ (match ?x with _ => _ end) => destruct x
+  | H : do_malloc _ ?a _ = (?b, _) |- ofr _ _ ?b => eapply ofr_trans; [|eapply ofr_do_malloc; exact H]
+  end.
+
+Ltac inv_all :=
+  repeat match goal with
+  | H : bind ?r _ = Ok _ |- _ => let E := fresh "E" in destruct r eqn:E; cbn [bind] in H; [|discriminate|discriminate]
+  | H : Ok _ = Ok _ |- _ => apply ok_inj in H; subst
+  | H : (let '(x, y) := ?e in _) = Ok _ |- _ => destruct e as (? & ?) eqn:?
+  | H : match ?x with Some _ => _ | None => _ end = Ok _ |- _ => destruct x eqn:?
+  | H : (if ?c then _ else _) = Ok _ |- _ => destruct c eqn:?
+  end.
+
+Lemma ofr_unique_reset s a s' js : (forall i, a = ASlot i -> In i js) -> unique_reset s a = Ok s' -> ofr js s s'.
+Proof.
+  intros I H. unfold unique_reset in H. inv_all.
+  all: destruct a as [i0|d0]; [assert (In i0 js) by (apply I; reflexivity)|]; repeat of_prim.
+Qed.
+
+Ltac of_fun := first [of_prim | match goal with
+  | H : unique_reset ?a ?x = Ok ?b |- ofr _ _ ?b =>
+    eapply ofr_trans; [|eapply (ofr_unique_reset a x b); [|exact H]; first [intros ? ?; discriminate | intros ? [= <-]; first [assumption|cbn; tauto]]]
+  end].
+
+Lemma ofr_weak_reset s i s' js : In i js -> weak_reset s i = Ok s' -> ofr js s s'.
+Proof. intros I H. unfold weak_reset in H. inv_all; repeat of_fun. Qed.
+
+Ltac of_fun2 := first [of_fun | match goal with
+  | H : weak_reset ?a ?i = Ok ?b |- ofr _ _ ?b => eapply ofr_trans; [|eapply (ofr_weak_reset a i b); [|exact H]; first [assumption|cbn; tauto]]
+  end].
+
+Lemma ofr_shared_reset s i s' js : In i js -> shared_reset s i = Ok s' -> ofr js s s'.
+Proof. intros I H. unfold shared_reset in H. inv_all; repeat of_fun2. Qed.
+
+Ltac of_fun3 := first [of_fun2 | match goal with
+  | H : shared_reset ?a ?i = Ok ?b |- ofr _ _ ?b => eapply ofr_trans; [|eapply (ofr_shared_reset a i b); [|exact H]; first [assumption|cbn; tauto]]
+  end].
+
+Section Ofr.
+  Variable ok : nat -> N -> bool.
+
+  Lemma ofr_unique_alloc s a sz cb s' js :
+    (forall i, a = ASlot i -> In i js) -> unique_alloc ok s a sz cb = Ok s' -> ofr js s s'.
+  Proof.
+    intros I H. unfold unique_alloc in H. inv_all.
+    all: destruct a as [i0|d0]; [assert (In i0 js) by (apply I; reflexivity)|]; repeat of_fun3.
+  Qed.
+
+  Lemma ofr_shared_alloc s i sz cb s' js : In i js -> shared_alloc ok s i sz cb = Ok s' -> ofr js s s'.
+  Proof.
+    intros I H. unfold shared_alloc in H. inv_all; repeat of_fun3.
+    all: match goal with H : unique_alloc _ ?a (AData ?d) _ _ = Ok ?b |- _ =>
+           apply (ofr_unique_alloc a (AData d) _ _ b js) in H; [|intros ? ?; discriminate] end.
+    all: try (unfold unique_get in *; inv_all).
+    all: repeat first [of_fun3 | match goal with H : ofr _ ?a ?b |- ofr _ _ ?b => eapply ofr_trans; [|exact H] end].
+  Qed.
+End Ofr.
+
+Lemma ofr_shared_share s e n s' js : In n js -> shared_share s e n = Ok s' -> ofr js s s'.
+Proof. intros I H. unfold shared_share in H. inv_all; repeat of_fun3. Qed.
+Lemma ofr_gp_swap s a b s' js : In a js -> In b js -> gp_swap s a b = Ok s' -> ofr js s s'.
+Proof. intros I J H. unfold gp_swap in H. inv_all; repeat of_fun3. Qed.
+Lemma ofr_weak_from s w sp s' js : In w js -> weak_from s w sp = Ok s' -> ofr js s s'.
+Proof. intros I H. unfold weak_from in H. inv_all; repeat of_fun3. Qed.
+Lemma ofr_weak_lock s w sp s' js : In sp js -> weak_lock s w sp = Ok s' -> ofr js s s'.
+Proof. intros I H. unfold weak_lock in H. inv_all; repeat of_fun3. Qed.
+Lemma ofr_unique_swap s u v s' js : In u js -> In v js -> unique_swap s (ASlot u) (ASlot v) = Ok s' -> ofr js s s'.
+Proof. intros I J H. unfold unique_swap in H. inv_all; repeat of_fun3. Qed.
+
+(** slots a pointer operation may write *)
+Definition mtouch (o : mop) : list nat :=
+  match o with
+  | UInit u | UAlloc u _ _ | URelease u | UReset u => [u]
+  | UGet _ | SGet _ | SUnique _ => []
+  | USwap u v => [u; v]
+  | SInit x | SAlloc x _ _ | SReset x => [x]
+  | SShare _ n => [n]
+  | SSwap a b | WSwap a b => [a; b]
+  | WInit w | WReset w => [w]
+  | WFrom w _ => [w]
+  | WLock _ x => [x]
+  | StrayCopy _ dst => [dst]
+  end.
+
+Section OfrStep.
+  Variable ok : nat -> N -> bool.
+
+  Lemma ofr_mstep s o s' out : mstep ok s o = Done s' out -> ofr (mtouch o) s s'.
+  Proof.
+    unfold mstep. destruct (mdom s o) eqn:D; [|discriminate]. destruct o; cbn [mexec mtouch]; unfold of_res; intros H.
+    - apply done_inj in H; subst s'. unfold unique_init. repeat of_prim.
+    - destruct (unique_alloc ok s (ASlot u) sz cb) eqn:E; try discriminate. apply done_inj in H; subst s'.
+      eapply ofr_unique_alloc; eauto. intros ? [= <-]. cbn; auto.
+    - destruct (unique_get s (ASlot u)); try discriminate. apply done_inj in H; subst s'. apply ofr_refl.
+    - destruct (unique_release s (ASlot u)) as [((s1 & p) & c)| |] eqn:E; try discriminate. apply done_inj in H; subst s'.
+      unfold unique_release in E. repeat bind_inv E. apply ok_inj in E.
+      assert (X : unique_init s (ASlot u) = s1) by congruence. subst s1. unfold unique_init. repeat of_prim.
+    - destruct (unique_swap s (ASlot u) (ASlot v)) eqn:E; try discriminate. apply done_inj in H; subst s'.
+      eapply ofr_unique_swap; eauto; cbn; auto.
+    - destruct (unique_reset s (ASlot u)) eqn:E; try discriminate. apply done_inj in H; subst s'.
+      eapply ofr_unique_reset; eauto. intros ? [= <-]. cbn; auto.
+    - apply done_inj in H; subst s'. unfold obj_reinit. destruct (nth_error (objs s) s0) eqn:EE; [apply ofr_upd; [cbn; auto|intros o' E'; assert (o' = o) by congruence; subst; reflexivity]|apply ofr_refl].
+    - destruct (shared_alloc ok s s0 sz _) eqn:E; try discriminate. apply done_inj in H; subst s'. eapply ofr_shared_alloc; eauto. cbn; auto.
+    - destruct (shared_get s s0); try discriminate. apply done_inj in H; subst s'. apply ofr_refl.
+    - destruct (shared_unique s s0); try discriminate. apply done_inj in H; subst s'. apply ofr_refl.
+    - destruct (shared_share s e n) eqn:E; try discriminate. apply done_inj in H; subst s'. eapply ofr_shared_share; eauto. cbn; auto.
+    - destruct (gp_swap s a b) eqn:E; try discriminate. apply done_inj in H; subst s'. eapply ofr_gp_swap; eauto; cbn; auto.
+    - destruct (shared_reset s s0) eqn:E; try discriminate. apply done_inj in H; subst s'. eapply ofr_shared_reset; eauto. cbn; auto.
+    - apply done_inj in H; subst s'. unfold obj_reinit. destruct (nth_error (objs s) w) eqn:EE; [apply ofr_upd; [cbn; auto|intros o' E'; assert (o' = o) by congruence; subst; reflexivity]|apply ofr_refl].
+    - destruct (weak_from s w s0) eqn:E; try discriminate. apply done_inj in H; subst s'. eapply ofr_weak_from; eauto. cbn; auto.
+    - destruct (weak_lock s w s0) eqn:E; try discriminate. apply done_inj in H; subst s'. eapply ofr_weak_lock; eauto. cbn; auto.
+    - destruct (gp_swap s a b) eqn:E; try discriminate. apply done_inj in H; subst s'. eapply ofr_gp_swap; eauto; cbn; auto.
+    - destruct (weak_reset s w) eqn:E; try discriminate. apply done_inj in H; subst s'. eapply ofr_weak_reset; eauto. cbn; auto.
+    - apply done_inj in H; subst s'. unfold stray_copy. cbn [mdom] in D.
+      destruct (nth_error (objs s) src) as [os|] eqn:Es; [|apply ofr_refl].
+      apply ofr_upd; [cbn; auto|]. intros o' E'. rewrite E' in D.
+      repeat match goal with H : _ && _ = true |- _ => apply andb_prop in H; destruct H end.
+      destruct (okind os), (okind o'); try discriminate; reflexivity.
+  Qed.
+
+  (** a well-formed array object present after a pointer operation was there,
+      unchanged, before it *)
+  Lemma mstep_arrays s o s' out j oj :
+    mstep ok s o = Done s' out -> nth_error (objs s') j = Some oj -> okind oj = KA -> wf_obj j oj = true ->
+    nth_error (objs s) j = Some oj.
+  Proof.
+    intros E Ej K W. destruct (ofr_mstep s o s' out E) as (A & A'). rewrite <- Ej. symmetry. apply A. intros IN.
+    specialize (A' j). rewrite Ej in A'. cbn in A'. rewrite K in A'.
+    unfold mstep in E. destruct (mdom s o) eqn:D; [|discriminate].
+    destruct o; cbn [mdom mtouch In] in *;
+      repeat match goal with H : _ && _ = true |- _ => apply andb_prop in H; destruct H end;
+      repeat match goal with H : has_kind _ _ _ = true |- _ => apply has_kind_spec in H; destruct H as (? & ? & ?) end;
+      repeat match goal with H : _ \/ _ |- _ => destruct H end; subst; try tauto;
+      try (match goal with H : nth_error (objs s) _ = Some _ |- _ => rewrite H in A'; cbn in A'; congruence end).
+    (* StrayCopy: the destination is not well-formed afterwards *)
+    apply done_inj in E. subst s'. unfold stray_copy in Ej.
+    destruct (nth_error (objs s) src) as [os|] eqn:Es; [|discriminate].
+    destruct (nth_error (objs s) j) as [od|] eqn:Ed; [|discriminate].
+    repeat match goal with H : _ && _ = true |- _ => apply andb_prop in H; destruct H end.
+    cbn [objs set_objs] in Ej. rewrite nth_upd_same with (o := od) in Ej by auto. injection Ej as ->.
+    unfold wf_obj in W. rewrite W in *. discriminate.
+  Qed.
+End OfrStep.
